@@ -118,6 +118,66 @@ def multishot_pass(out, tier):
     return n, bad
 
 
+TEARDOWN_PROGRAMS = [
+    # operations performed while objects die: by scope exit, by destroy, at the end of main, in a destructor, and - for owners that
+    # are garbage inside a reference cycle - by the cycle collection at the end of the run
+    ("scope exit / destroy / end of main",
+     "class P { public qubit q; public constructor() -> P = default; }\n"
+     "function main() -> void {\n  { P a = new P(); x(a.q); }\n  P b = new P(); x(b.q); destroy b;\n  P c = new P(); h(c.q); x(c.q);\n  qubit w; x(w);\n}\n"),
+    ("garbage cycle of owners",
+     "class P { public qubit q; public constructor() -> P = default; }\n"
+     "class N { public N other; public P p; public constructor() -> N { this.p = new P(); this.other = null; return this; } }\n"
+     "function tie() -> void {\n  N a = new N(); N b = new N(); a.other = b; b.other = a; x(a.p.q); x(b.p.q);\n}\n"
+     "function main() -> void {\n  tie();\n  qubit w; h(w);\n}\n"),
+    ("self cycle and subclass owner",
+     "class B { public qubit q; public qubit[2] r; public constructor() -> B = default; }\n"
+     "class D extends B { public D me; public constructor() -> D { super(); this.me = null; return this; } }\n"
+     "function main() -> void {\n  { D d = new D(); d.me = d; x(d.q); x(d.r[1]); }\n  qubit w; x(w); measure w;\n}\n"),
+    ("destructor with operations, inside a cycle and outside",
+     "class K { public qubit q; public K peer; public constructor() -> K { this.peer = null; return this; }\n"
+     "  public destructor() -> void { reset q; x(q); measure q; } }\n"
+     "function main() -> void {\n  { K a = new K(); h(a.q); measure a.q; }\n  { K b = new K(); K c = new K(); b.peer = c; c.peer = b; x(b.q); }\n  qubit w; z(w);\n}\n"),
+]
+
+
+def teardown_pass(out):
+    """Hand-written programs whose last operations happen while the run is being wound up. Trace validation of the listing against
+    the simulator's own event stream (hook in QasmSimulator): every operation the simulator performed during execute() - including the
+    resets of the end-of-run collection - is listed, once, in order; and the CLI's file / --emit-qasm output is that listing."""
+    n = bad = 0
+    for name, src in TEARDOWN_PROGRAMS:
+        for gc in ("none", "all"):
+            r = runner.run_jobs([{"id": 0, "src": src, "draws": [0.25] * 40, "gc": gc, "want": ["events", "qasm"]}])[0]
+            n += 1
+            if r["status"] != "ok" or not r["shots"]:
+                raise vlib.Infra("teardown program '%s' did not run: %s" % (name, str(r)[:400]))
+            shot = r["shots"][0]
+            evops = [e for e in shot.get("events", []) if e["e"] == "op"]
+            doc, problems = qasmparse.parse(shot["qasm"])
+            why = None
+            if problems:
+                why = "listing not well-formed: %s" % problems[0]
+            elif len(doc["ops"]) != len(evops) or any(a["g"] != b["g"] or a["a"] != b["a"] for a, b in zip(doc["ops"], evops)):
+                why = ("listing has %d operations %s, the simulator performed %d %s" %
+                       (len(doc["ops"]), [(a["g"], a["a"]) for a in doc["ops"]], len(evops), [(b["g"], b["a"]) for b in evops]))
+            if why is None and gc == "none":
+                c = runner.run_cli(["--emit-qasm", "main.bloch"], {"main.bloch": src, "draws.txt": " ".join(["0.25"] * 40)},
+                                   env={"BLOCH_VERIF_DRAWS": "draws.txt", "BLOCH_VERIF_GC": "none"})
+                idx = c["stdout"].find("OPENQASM 2.0;")
+                printed = c["stdout"][idx:] if idx >= 0 else None
+                if c["rc"] != 0:
+                    why = "CLI exit status %d: %s" % (c["rc"], c["stderr"][-300:])
+                elif printed is None or printed != c["files"].get("main.qasm"):
+                    why = "--emit-qasm output differs from the .qasm file"
+                elif printed.strip() != shot["qasm"].strip():
+                    why = "CLI listing differs from the library's listing of the same run"
+            if why:
+                bad += 1
+                out.violation("teardown program '%s' (collector schedule %s): %s" % (name, gc, why),
+                              {"what": why, "program": src, "gc": gc, "listing": shot["qasm"], "simulator_ops": evops}, "teardown%d" % n)
+    return n, bad
+
+
 def run(tier, seed):
     t0 = time.time()
     out = vlib.Outcome(PID)
@@ -138,11 +198,13 @@ def run(tier, seed):
     ncli, badcli = cli_pass(pairs, out, 60 if tier == "quick" else 600)
     nms, badms = multishot_pass(out, tier)
     badcli += badms
+    ntd, badtd = teardown_pass(out)
+    badcli += badtd
     cov = {"states": stats["exhaustive"]["distinct"] + meta["distinct"],
            "transitions": stats["exhaustive"]["generated"] + meta["generated"],
            "traces_validated_against_impl": stats["behaviours"],
            "listings_parsed_and_compared": stats["behaviours"], "operations_compared": stats["ops_total"],
-           "cli_runs_file_vs_stdout": ncli, "cli_multishot_runs": nms, "simulator_edges_with_log_line_checked": rep["edges"],
+           "cli_runs_file_vs_stdout": ncli, "cli_multishot_runs": nms, "teardown_programs_listing_vs_simulator_events": ntd, "simulator_edges_with_log_line_checked": rep["edges"],
            "samples": [sample, {"expected_listing": qrender.expected_qasm(behs[3]) if len(behs) > 3 else ""}],
            "behaviour_stats": stats,
            "rule": "each TLC-generated QRuntime behaviour (gates via functions, static and instance methods, qubit arrays, object "
